@@ -61,6 +61,20 @@ Definition outkeys (r : res (option (list (list Z)))) : Z * list (list Z) :=
   | Panic DivZero => (4, [])
   end.
 
+Definition D (inputs : list (Z * option (list Z))) (pver : Z) (tcca : bool) (idxs : list Z)
+    (outs : list (Z * Z * bool)) : deposit_tx := Build_deposit_tx inputs pver tcca idxs outs.
+
+(* a single return output: [Ok None] = the loop goes on and the check accepts *)
+Definition outo (r : res (option bool)) : Z :=
+  match r with
+  | Ok None => 0
+  | Ok (Some true) => 0
+  | Ok (Some false) => 1
+  | Panic IndexOOR => 2
+  | Panic SliceOOR => 3
+  | Panic DivZero => 4
+  end.
+
 Inductive case :=
 | CCls (id : N) (code : list Z) (std sch ms out val : Z)
 | CExp (id : N) (nonce chain h : Z) (out val : Z)
@@ -79,7 +93,12 @@ Inductive case :=
 | CAttr (id : N) (allowed : bool) (ps : list attr_prog) (out : Z)
 | CRetDep (id : N) (known : list (list Z)) (codes : list (list Z)) (out : Z)
 | CRegProd (id : N) (version : Z) (sigok : bool) (codes : list (list Z)) (owner : list Z) (out : Z)
-| CSigners (id : N) (validate : bool) (arbiters signers : list Z) (out : Z).
+| CWithdraw (id : N) (validate : bool) (arbiters signers : list Z) (agg_ok : bool) (redeem : list Z)
+            (codes : list (list Z)) (out : Z)
+| CXcV0 (id : N) (is_payload : bool) (addrs idxs amounts : list Z) (outs : list (Z * Z))
+        (minfee total_in : Z) (out : Z)
+| CRetSide (id : N) (out_ph out_value fee : Z) (dup : bool) (dep : option deposit_tx)
+           (addr_ok : bool) (side : Z) (out : Z).
 
 Definition zz_eqb (a b : Z * Z) : bool := (fst a =? fst b) && (snd a =? snd b).
 Fixpoint keys_eqb (a b : list (list Z)) : bool :=
@@ -125,8 +144,12 @@ Definition check (c : case) : option N :=
   | CRetDep id known codes out => cmp id (outcome (return_deposit_loop (in_tbl known) codes) =? out)
   | CRegProd id version sigok codes owner out =>
       cmp id (outcome (register_producer_code version sigok codes owner) =? out)
-  | CSigners id validate arbiters signers out =>
-      cmp id (outcome (schnorr_withdraw_signers validate arbiters signers) =? out)
+  | CWithdraw id validate arbiters signers agg_ok redeem codes out =>
+      cmp id (outcome (schnorr_withdraw validate arbiters signers agg_ok redeem codes) =? out)
+  | CXcV0 id isp addrs idxs amounts outs minfee tin out =>
+      cmp id (outcome (crosschain_v0 isp addrs idxs amounts outs minfee tin) =? out)
+  | CRetSide id oph ov fee dup dep aok side out =>
+      cmp id (outo (return_deposit_output oph ov fee dup dep aok side) =? out)
   end.
 
 Definition mismatches (cs : list case) : list N :=
